@@ -33,7 +33,8 @@ Basics == {B("int"), B("string"), B("bool"), B("float64"), B("uint8"), B("comple
 \* m/ext with unexported fields, a struct from m/other/ext (same package name), a recursive struct,
 \* a struct with embedded fields
 FixLeaves == {Leaf("MyInt"), Leaf("MyString"), Leaf("SL"), Leaf("ext.SE"), Leaf("ext2.SE2"), Leaf("Rec"), Leaf("Emb"),
-              Leaf("time.Duration"), Leaf("time.Time")}   \* a named basic and a struct (unexported fields, own Equal/Compare methods) from the standard library
+              Leaf("time.Duration"), Leaf("time.Time"),
+              Leaf("Both")}   \* local struct with fields from BOTH packages called ext: the generated file must alias one of them   \* a named basic and a struct (unexported fields, own Equal/Compare methods) from the standard library
 Leaves == Basics \cup FixLeaves
 
 \* value keys of maps
@@ -78,7 +79,7 @@ Comparable(t) ==
 \* an imported struct with unexported fields somewhere inside: GoString cannot rebuild it outside its package
 RECURSIVE HasExtPrivate(_)
 HasExtPrivate(t) ==
-  CASE t.k = "leaf" -> t.n \in {"ext.SE", "ext2.SE2", "time.Time"}
+  CASE t.k = "leaf" -> t.n \in {"ext.SE", "ext2.SE2", "time.Time", "Both"}
     [] t.k \in {"ptr", "slice", "array", "wrap", "named"} -> HasExtPrivate(t.e)
     [] t.k = "map" -> HasExtPrivate(t.key) \/ HasExtPrivate(t.e)
     [] OTHER -> FALSE
